@@ -247,7 +247,9 @@ def naming_case(args):
     return args[:2], errs
 
 
-NAMINGS = [("S", "S"), ("OUT1", "A", "A"), ("OUT2", "A", "A"), ("A", "A", "OUT1"), ("A", "A", "A")]
+NAMINGS = [("S", "S"), ("OUT1", "A", "A"), ("OUT2", "A", "A"), ("A", "A", "OUT1"), ("A", "A", "A"),
+            # names that also occur inside the names of the output files (<name>.transcript_models.gtf, <name>.gene_counts.tsv, ...)
+            ("t", "gene"), ("s", "counts", "tsv")]
 MENU = "ABCDEF"
 
 
